@@ -90,7 +90,7 @@ Definition binop (f dx dy : R -> R -> R) (s : st) (x y : rcd) : st * event :=
         let '(t', i) := append_unary ops (tape_at s h) (r_idx y) (dx (r_val y) (r_val x)) in
         push s (set_nth (tapes s) h t') (mkR (f (r_val y) (r_val x)) (Some h) i)
     | Some h, Some _ =>                    (* the LEFT operand's tape is the one appended to *)
-        let '(t', i) := append_binary ops (tape_at s h) (r_idx x) (dx (r_val x) (r_val y))
+        let '(t', i) := append_binary (tape_at s h) (r_idx x) (dx (r_val x) (r_val y))
                                       (r_idx y) (dy (r_val x) (r_val y)) in
         push s (set_nth (tapes s) h t') (mkR (f (r_val x) (r_val y)) (Some h) i)
     end
